@@ -153,3 +153,20 @@ func BadRecvCall(a int) int {
 	return r.a
 }
 func BadRecvValue(p *rec2) *rec2 { return p }
+
+// phase 3
+func okStore2(b []byte, c []byte) int { b[0] = c[0]; return 1 }
+func BadSubSliceAlias(b []byte) int  { return okStore2(b[1:], b[0:2]) }
+func BadSubSliceHigh(b []byte) int   { return okStore(b[1:3], 0, 1) }
+func BadSwitchMulti(a int) int {
+	switch {
+	case a > 3, a < 0:
+		return 1
+	}
+	return 0
+}
+func (p *rec2) okBumpR(a int) int { p.a += a; return p.a }
+func (p *rec2) BadRecvOrder() int { return p.a + p.okBumpR(1) }
+func BadOtherRecv(p *rec2, a int) int {
+	return p.okBumpR(a)
+}
